@@ -1,5 +1,5 @@
 """C13 — backend-conditional attributes apply exactly where their condition holds."""
-import copy, json, os, re
+import copy, json, os, re, zlib
 from hypothesis import strategies as st
 from .. import build, pbt, tool, findings, probe as probe_mod
 from ..gen import ir, strategies as S
@@ -275,7 +275,9 @@ def check_backend(art, work, prog, placements, b, table):
     s1, s2 = ir.render_program(pc), ir.render_program(pr_)
     open(e1, "w").write(s1)
     open(e2, "w").write(s2)
-    r1 = tool.run_backend(art, b, e1, os.path.join(work, "o1"), config=CONFIGS[b][0])
+    # the command line's other spelling of the nanobind target must answer to the same backend names (every other program)
+    target = "py-nanobind" if b == "nanobind" and (zlib.crc32(s1.encode()) & 1) else b
+    r1 = tool.run_backend(art, target, e1, os.path.join(work, "o1"), config=CONFIGS[b][0])
     r2 = tool.run_backend(art, b, e2, os.path.join(work, "o2"), config=CONFIGS[b][0])
     truth = ["%s => %s" % (cfgm.render(pl["formula"]), cfgm.evaluate(pl["formula"], b, table[b])) for pl in placements]
     if r1.classify() != r2.classify():
